@@ -116,7 +116,7 @@ def judge(c):
             LOG.counters['nontrivial_in_scope'] += 1
         elif nk.n > 3 or height(t) > 2 or c.nested:
             # outside the enumerated scope: deduplicate by digest
-            LOG.mark_nontrivial((nk.key(), t))
+            LOG.mark_nontrivial((nk.key(), t), PROP)
 
 
 def _attach_internal():
